@@ -80,24 +80,12 @@ class LangWorker:
         env = vlib.base_env(self.wd, "w" + self.tag)
         env["W_LANG_CUR"] = self.cur
         # leaks are not part of the properties checked through this worker (C13/C14: values, tokens, crashes)
-        env["ASAN_OPTIONS"] = env["ASAN_OPTIONS"].replace("detect_leaks=1", "detect_leaks=0")
+        # a runaway expansion must end as an abort of the worker, not as memory pressure on the machine
+        env["ASAN_OPTIONS"] = env["ASAN_OPTIONS"].replace("detect_leaks=1", "detect_leaks=0") + ":hard_rss_limit_mb=3072"
         self.errf = open(self.errlog, "w")
         self.p = subprocess.Popen([self.binary], stdin=subprocess.PIPE, stdout=subprocess.PIPE,
                                   stderr=self.errf, env=env, bufsize=0)
         self.buf = b""
-
-    def _readline(self, timeout):
-        fd = self.p.stdout.fileno()
-        while b"\n" not in self.buf:
-            r, _, _ = select.select([fd], [], [], timeout)
-            if not r:
-                return "timeout"
-            chunk = os.read(fd, 1 << 16)
-            if not chunk:
-                return None
-            self.buf += chunk
-        line, self.buf = self.buf.split(b"\n", 1)
-        return line
 
     def _reap(self, kill=False):
         if self.p is None:
